@@ -185,6 +185,24 @@ class CacheStateDomain(NormDomain):
 
     def call_ext(self, dotted, args, kwargs, node):
         last = dotted.rsplit('.', 1)[-1]
+        if last in ('arctan2', 'hypot') and len(args) == 2 and all(isinstance(a, CoordV) for a in args):
+            a, b = args
+            ok = a.sv == b.sv and a.ov == b.ov and a.scale == b.scale
+            if not ok:
+                return Unknown('polar of inconsistent x/y')
+            if last == 'hypot' and {a.kind, b.kind} == {'x', 'y'}:
+                return PolarV('r', a.sv, a.scale, a.ov)
+            if last == 'arctan2':
+                # the azimuth is arctan2(y, x); with the arguments exchanged it is the angle from the other axis
+                return PolarV('t' if (a.kind, b.kind) == ('y', 'x') else 'arctan2(x, y): not the azimuth arctan2(y, x)', a.sv, a.scale, a.ov)
+            return Unknown('polar of inconsistent x/y')
+        if args and isinstance(args[0], DataV) and last in ('rfft', 'rfft2', 'rfftn'):
+            return DataV(self.new_version(), 'half spectrum')
+        if args and isinstance(args[0], DataV) and last in ('irfft', 'irfft2', 'irfftn'):
+            if 's' in kwargs or 'n' in kwargs or len(args) > 1:
+                return Unknown('%s(data, s)' % last)
+            # without the output size an odd length comes back one sample short: the data has a new shape
+            return DataV(self.new_version(), 'irfft without the output size')
         if args and isinstance(args[0], DataV):
             if last in SHAPE_PRESERVING and 's' not in kwargs and (last not in ('fft2', 'ifft2') or len(args) == 1):
                 return DataV(args[0].sv)
